@@ -64,7 +64,7 @@ Definition trim_len (stop : option Z) (L : Z) : Z :=
 Definition stop_pinned (w : Z) : option Z := Some (- w + 1).
 Definition stop_fixed (w : Z) : option Z := if (- w + 1) =? 0 then None else Some (- w + 1).
 (* ONE-LINE SWITCH: which variant the correspondence check compares the implementation with. *)
-Definition stop_of : Z -> option Z := stop_pinned.
+Definition stop_of : Z -> option Z := stop_fixed.
 
 (* re-wrap a flat result with the original row lengths (row i starts at the sum of the previous
    lengths) and keep trim_len columns of each row *)
